@@ -73,6 +73,7 @@ class Server:
         self.reorder = False
         self.late_choice = False  # when True every reply / drain completion may arrive late (choice point)
         self.late: list = []  # completions held back until nothing else can happen at this instant
+        self.fail_once: dict = {}  # label prefix -> exception raised by the next client call with that label
         self.rr: dict[str, int] = {}  # per queue: index of the consumer that is served next
         loop.select_hooks.append(self._pump)
 
@@ -312,6 +313,9 @@ class Channel:
             exc = self.fail_next.pop(0)
             if exc is not None:
                 raise exc
+        for prefix in list(self.s.fail_once):
+            if label.startswith(prefix):
+                raise self.s.fail_once.pop(prefix)
         return await self.s.submit(self, label, fn, True)
 
     async def _cast(self, label, fn):
@@ -322,6 +326,9 @@ class Channel:
             exc = self.fail_next.pop(0)
             if exc is not None:
                 raise exc
+        for prefix in list(self.s.fail_once):
+            if label.startswith(prefix):
+                raise self.s.fail_once.pop(prefix)
         await self.s.submit(self, label, fn, False)  # the write has drained
 
     # server -> client
